@@ -67,10 +67,11 @@ def run(binary, test, seconds, rundir, statsfile, procs):
     shutil.rmtree(cache, ignore_errors=True)
     if p.returncode == 0:
         return 0
-    fails = glob.glob(os.path.join(rundir, "fail-*.json")) + glob.glob(os.path.join(rundir, "journal-*.json"))
     saved = glob.glob(os.path.join(rundir, "testdata", "fuzz", "FuzzProp", "*"))
-    if fails:
-        return 1  # the driver reports the record as the violation
+    if glob.glob(os.path.join(rundir, "fail-*.json")):
+        return 1  # the property itself wrote a failure record: the driver reports it
+    for j in glob.glob(os.path.join(rundir, "journal-*.json")):
+        os.remove(j)  # a journal alone only says which case a worker was in when the coordinator stopped it; the coordinator keeps the input of a worker that died
     if saved:
         # The fuzzer saved an input but the property wrote no record: the worker died or did not answer the coordinator.
         # Go's coordinator also says so ("fuzzing process hung or terminated unexpectedly") when one execution exceeds its
@@ -84,8 +85,12 @@ def run(binary, test, seconds, rundir, statsfile, procs):
             rc2, out2 = p2.returncode, p2.stdout + p2.stderr
         except subprocess.TimeoutExpired:
             rc2, out2 = -1, "re-execution of the saved input did not return within 600 s"
-        fails = glob.glob(os.path.join(rundir, "fail-*.json")) + glob.glob(os.path.join(rundir, "journal-*.json"))
+        fails = glob.glob(os.path.join(rundir, "fail-*.json"))
+        if rc2 != 0:
+            fails += glob.glob(os.path.join(rundir, "journal-*.json"))
         if rc2 == 0 and not fails:
+            for j in glob.glob(os.path.join(rundir, "journal-*.json")):
+                os.remove(j)
             # the campaign ended early; what it explored until then stands (the executions are counted in the statistics)
             sys.stdout.write("\nGOFUZZ: a worker died or was declared hung on an input that passes when executed again alone (engine / machine load): campaign ended early, no finding\n")
             stats["info"]["gofuzz:" + test] += "; the campaign ended early: the coordinator declared a worker hung or dead on an input that passes when executed again alone"
@@ -98,7 +103,11 @@ def run(binary, test, seconds, rundir, statsfile, procs):
         dst = os.path.join(rundir, "artefact-gofuzz-%s-%s" % (test, os.path.basename(saved[0])))
         shutil.copy(saved[0], dst)
         return 1
-    # engine trouble (e.g. "context deadline exceeded" at the end of the budget): inconclusive, never a violation
+    if "context deadline exceeded" in out:
+        # a known way for `go test -fuzz` to end a time-boxed campaign: the budget was used, nothing failed
+        sys.stdout.write("\nGOFUZZ: the fuzzer ended its time budget with 'context deadline exceeded' and no failing input: no finding\n")
+        return 0
+    # other engine trouble: inconclusive, never a violation
     sys.stdout.write("\nGOFUZZ: exit %d without a failing input — inconclusive\n" % p.returncode)
     return 3
 
